@@ -242,8 +242,12 @@ def analyzer_history(rec, seedt):
     data = np.vstack([x, gen.second_channel(rng, x, "mixed")]) if cross else x
     kw = dict(order=int(rng.choice([-1, 0, 1, 2])), scheduler=str(rng.choice(gen.SCHEDS)),
               backend=str(rng.choice(["numba", "numpy"])), Jdes=int(rng.choice([8, 30])),
-              Kdes=int(rng.choice([3, 20])), olap=float(rng.choice([0.3, 0.5, 0.75])))
+              Kdes=int(rng.choice([3, 20])), olap=float(rng.choice([0.0, 0.3, 0.5, 0.75])))
     kw.update(api.win_args(api.random_window(rng)))
+    if kw["olap"] == 0.0:
+        N = int(N // 60) * 60 or 60     # many segment lengths divide the record exactly
+        data = data[..., :N] if N <= data.shape[-1] else data
+        N = data.shape[-1]
     if rng.random() < 0.2:
         kw["band"] = (0.02 * 1.0, 0.3 * 1.0)  # scaled by fs below
     if rng.random() < 0.25 and kw["scheduler"] != "vectorized_ltf":
@@ -263,7 +267,10 @@ def analyzer_history(rec, seedt):
     for _ in range(nops):
         o = str(rng.choice(["plan", "compute", "single-L", "single-fres", "single-L"]))
         if o == "single-L":
-            ops.append((o, float(rng.uniform(0, 0.5)) * fs, int(rng.integers(1, N + 1))))
+            Lq = int(rng.integers(1, N + 1))
+            if rng.random() < 0.4:
+                Lq = max(1, N // int(rng.choice([1, 2, 3, 4, 5, 6, 10, 12])))   # divides N
+            ops.append((o, float(rng.uniform(0, 0.5)) * fs, Lq))
         elif o == "single-fres":
             Lr = int(rng.integers(2, N + 1))
             ops.append((o, float(rng.uniform(0, 0.5)) * fs, fs / Lr * float(rng.choice([1.0, 1.002]))))
